@@ -62,6 +62,7 @@ func cmdRun(args []string) {
 	budget := fs.Int64("budget", 5_000_000, "instruction budget per path")
 	verbose := fs.Bool("v", false, "print samples")
 	gen := fs.Bool("gen", false, "generate vt bindings first")
+	qtimeout := fs.Int("query-timeout-ms", 0, "per-query solver timeout")
 	inputsStr := fs.String("inputs", "", "run once with these input values (comma separated) and print the result")
 	itrace := fs.Bool("itrace", false, "with --inputs: print every instruction")
 	fs.Parse(args)
@@ -103,7 +104,7 @@ func cmdRun(args []string) {
 		}
 		return
 	}
-	job := &Job{Loaded: l, Pkg: l.ModulePath + "/" + *pkg, Func: *fn, Args: parseInts(*argstr), Budget: *budget, MaxPaths: *maxPaths}
+	job := &Job{Loaded: l, Pkg: l.ModulePath + "/" + *pkg, Func: *fn, Args: parseInts(*argstr), Budget: *budget, MaxPaths: *maxPaths, QueryTimeoutMs: *qtimeout}
 	res := explore(job, *workers, *solver)
 	printJobResult(res, *verbose)
 	pprof.StopCPUProfile()
